@@ -40,7 +40,10 @@ def _apply(root: Path, edits) -> str | None:
         if not p.exists():
             return f"{rel} missing"
         s = p.read_text(encoding="utf-8")
-        if s.count(old) != 1:
+        if old.startswith("_") and old.isidentifier():  # identifier rename: replace every occurrence
+            if s.count(old) < 1:
+                return f"identifier {old} absent from {rel}"
+        elif s.count(old) != 1:
             return f"anchor occurs {s.count(old)} times in {rel}"
         p.write_text(s.replace(old, new), encoding="utf-8")
     return None
